@@ -68,6 +68,9 @@ def PrimSpec.coherent (s : PrimSpec) (inLastPositional : Bool) : Bool :=
    | some c =>
      decide (c.toNat ≤ 127) &&
      (match s.enc with | .bcd | .lbcd => isDigitB c | _ => true) &&
+     -- BER-TLV with Length 0 declares no maximum: nothing is ever padded, yet Unpad would strip
+     -- likewise `None` declares no maximum
+     (match s.pref with | .berTLV => decide (1 ≤ s.len) | .none => false | _ => true) &&
      (match s.packer, s.pref.capacityOf with
       | .default, some cap => decide (s.len ≤ cap)
       | _, _ => true)) &&
@@ -81,7 +84,9 @@ def PrimSpec.coherent (s : PrimSpec) (inLastPositional : Bool) : Bool :=
      (match s.pref with | .fixed _ => s.pad.char?.isSome | _ => true)
    | _ => true) &&
   -- the custom Track2 packer needs a real pad
-  (match s.packer with | .track2 => s.kind == .string | .default => true)
+  (match s.packer with | .track2 => s.kind == .string && s.pad.char?.isSome | .default => true) &&
+  -- spec.Length is a Go int
+  decide (s.len ≤ maxInt)
 
 /-! ### K5/K6 for tags -/
 
@@ -224,6 +229,7 @@ def Field.inDomain : Field → Value → Bool
           let present := subs.map (fun p => (lookup p.1 vals).isSome)
           (match s.pref with
            | .fixed _ => present.all id
+           | .none => present.all id   -- `isVariableLength` is "the prefix took bytes": false for None
            | _ => !vals.isEmpty && (present.dropWhile id).all (fun b => !b) &&
                -- a trailing element that packs to no bytes can not be seen on the wire
                (match (orderBySpec subs vals).getLast? with
